@@ -47,6 +47,9 @@ let () = serve (fun fn req ->
     let cb = jbool (jfield req "cb") in
     let h = jbytes (jfield req "hash") in
     let ops = SL.map op_of_json (jlist (jfield req "ops")) in
-    let log = run_log h384 h kd cb ops init in
-    of_list (fun (s, r) -> JArr [json_of_res r; observe s]) log
+    let file = (match jfield_opt req "file" with Some (JStr x) -> Some (bytes_of_hex x) | _ -> None) in
+    let expected = (match jfield_opt req "expected" with Some JNull | None -> None | Some j -> Some (jn j)) in
+    let s0 = start kd file expected in
+    let log = run_log h384 h kd cb ops s0 in
+    JArr (JArr [JStr "start"; observe s0] :: SL.map (fun (s, r) -> JArr [json_of_res r; observe s]) log)
   | _ -> raise (Model_error ("unknown fn " ^ fn)))
